@@ -19,7 +19,7 @@ type Rxpk struct {
 // Txpk is a (JSON) struct used by the Semtech packet forwarder. It is sent from the server to the gateway
 type Txpk struct {
 	Immediate             bool    `json:"imme"`           // (one of)Send packet immediately (will ignore tmst & time)
-	Timestamp             uint32  `json:"tmst,omitempty"` // (one of)Send packet on a certain timestamp value (will ignore time)
+	Timestamp             uint32  `json:"tmst"`           // (one of)Send packet on a certain timestamp value (will ignore time)
 	Time                  string  `json:"time,omitempty"` // (one of)Send packet at a certain time (GPS synchronization required)
 	Frequency             float32 `json:"freq"`           // (mandatory)TX central frequency in MHz (unsigned float, Hz precision)
 	RFChain               uint8   `json:"rfch"`           // (mandatory)Concentrator "RF chain" used for TX (unsigned integer)
